@@ -64,7 +64,7 @@ func (h *Host) Install(vm *ds.Context) {
 			h.Calls = append(h.Calls, Invocation{What: "never-regex", Groups: groups})
 			return ds.NewIntVal(0), "", nil
 		})
-		_ = vm.RegCustomDice(`\x00+`, func(ctx *ds.Context, groups []string, payload any) (*ds.VMValue, string, error) {
+		_ = vm.RegCustomDice(`[^\x00-\x{10FFFF}]x`, func(ctx *ds.Context, groups []string, payload any) (*ds.VMValue, string, error) {
 			h.Calls = append(h.Calls, Invocation{What: "never-regex2", Groups: groups})
 			return ds.NewIntVal(0), "", nil
 		})
